@@ -297,12 +297,13 @@ PROPS["C42"] = {
         H(TOP, "c42_workers_for_contract", "workers_for", "1 <= r <= max(max,1); r <= max(work,1); r == work when 1 <= work <= max; all (usize,usize)"),
         H(TOP, "c42_kx_cpulist_part_denotation", "parse_cpulist (loop body region)", "appended ids == denotation of the part (singleton / inclusive range / nothing), ascending, frame preserved, no panic; all ids in usize",
           lane="KX", bound="range width <= 4 (the `for c in a..=b` loop)"),
+        H(TOP, "c42_kx_cpulist_tail_sorted_set", "parse_cpulist (tail region `out.sort_unstable(); out.dedup();`)", "result strictly increasing and the same set of ids as collected, for any order and repetitions", lane="KX", bound="<= 4 collected ids"),
     ],
     "trusted_base": [
         "carrier contracts on std str (R6): trim keeps the parse result, is_empty, split_once('-') splits at the first '-', parse::<usize>() is Ok exactly for decimal usize text",
         "std sort_unstable + dedup return the sorted set (outside the region)",
     ],
-    "not_under_contract": ["for part in s.trim().split(',') header", "out.sort_unstable(); out.dedup();", "an enormous range such as 0-18446744073709551615 allocates without bound (outside the property's statement)"],
+    "not_under_contract": ["for part in s.trim().split(',') header", "std's own sort_unstable / dedup (modelled by the carrier)", "an enormous range such as 0-18446744073709551615 allocates without bound (outside the property's statement)"],
     "technique": "Kani contract (all inputs) on workers_for; Kani on the verbatim loop body of parse_cpulist with the std string API as a carrier type",
     "level_text": "workers_for: deductive for all inputs. parse_cpulist: the part-level logic is proved for all ids with the range loop bounded at width 4 (labelled bounded); string splitting/parsing is assumed from std.",
     "level_note": "Trusted: Kani/CBMC; carrier contracts for std str methods; std sort/dedup.",
@@ -431,6 +432,7 @@ PROPS["C06"] = {
         H(CEX, "c06_cmp_f64_shape_reg_reg__excluding_known", "CompiledPredicate::eval_chunk (CmpF64, LitF64)", "register/register shape keeps the operand order", tier="thorough"),
         H(CEX, "c06_cmp_i64_scalars", "CompiledPredicate::eval_chunk (CmpI64)", "mask bit == arrow i64 comparison, all inputs, mask is 0/1"),
         H(CEX, "c06_cmp_i32_scalars", "CompiledPredicate::eval_chunk (CmpI32)", "mask bit == arrow i32 comparison (Int32 and Date32 columns), all inputs"),
+        H(CEX, "c06_pack_bits_region", "CompiledPredicate::evaluate (bit-packing region)", "bit i of the packed buffer == (mask[i] != 0) for i < len; no bit set beyond the last byte", lane="KX", bound="chunk lengths 0..=19 (every len % 8)"),
         H(CEX, "c06_lit_f64_fills_register", "CompiledPredicate::eval_chunk (LitF64)", "the literal fills its register; other registers untouched"),
         H(CEX, "c06_arith_f64_add", "CompiledPredicate::eval_chunk (Arith, LitF64)", "Add bit-equal to the IEEE operation; operand registers untouched (magnitudes bounded so results stay finite)", tier="thorough"),
         H(CEX, "c06_arith_f64_sub", "CompiledPredicate::eval_chunk (Arith, LitF64)", "Subtract bit-equal to the IEEE operation", tier="thorough"),
@@ -445,7 +447,7 @@ PROPS["C06"] = {
         "column-slice shapes read arrow value buffers directly (`arr.values()[start..start+len]`): exercised with literal/register operands only; a 1-row real array costs ~100 s per harness and is not part of the quick tier",
         "QE_COMPILE switch (compilation_enabled) and PredicateEvaluator's fallback order are structural",
     ],
-    "not_under_contract": ["evaluate()'s bit packing and chunk loop (lengths not multiple of 8 / 1024)", "Compiler::boolean/side/num_f64 (which expressions are accepted) — needs arrow Schema construction", "f64 division (float division is beyond the SAT budget)", "find_batch_column"],
+    "not_under_contract": ["evaluate()'s chunk loop (1024-row chunk boundary) and BooleanBufferBuilder::append_packed_range", "Compiler::boolean/side/num_f64 (which expressions are accepted) — needs arrow Schema construction", "f64 division (float division is beyond the SAT budget)", "find_batch_column"],
     "technique": "Kani proof harnesses in place on the private eval_chunk kernels, all scalar bit patterns, against the real arrow scalar comparison functions as oracle",
     "level_text": "Deductive per kernel for all inputs (loop bound 2 rows is irrelevant: every row runs the same straight-line code); mismatches between IEEE and total order are the known finding D7.",
     "level_note": "Trusted: Kani/CBMC; arrow's scalar comparison functions as the interpreter's semantics; position-wise uniformity of kernels. Known finding D7 excluded by class.",
@@ -480,13 +482,14 @@ PROPS["C02"] = {
         H(CFO, "c02_o4_eval_int64_ge", "ConstantFolding::eval_int64", ">= folds to the comparison"),
         H(CFO, "c02_o4_eval_int64_other_ops_not_folded", "ConstantFolding::eval_int64", "a non-arithmetic, non-comparison operator is not folded"),
         H(CFO, "c02_o4_eval_bool", "ConstantFolding::eval_bool", "AND/OR/=/<> on non-NULL booleans"),
+        {"name": CFO + "::verif_kani::fold_c::c02_o5_fold_binary_step", "fn": "ConstantFolding::fold_expr (BinaryExpr arm, carrier Expr)", "contract": "inductive step: for every 3VL valuation of the opaque operands and every operand shape (sub-expression, TRUE/FALSE literal, NULL literal), eval3(fold(l AND/OR r)) == eval3(l) and3/or3 eval3(r); recursive calls and eval_binary by contract", "lane": "KX", "bound": None, "tier": "quick", "finding": None},
         H(CFO, "c02_o4_eval_float64__excluding_known", "ConstantFolding::eval_float64", "comparisons equal the interpreter's (arrow total order) outside the NaN/signed-zero class; x / 0.0 is not folded"),
     ],
     "trusted_base": [
         "carrier KArr for the typed column arrays in the validity region: as_any_array().is_valid(row), null_count()",
         "a NULL cell's value-buffer content is arbitrary (modelled by an arbitrary leaf mask bit)",
     ],
-    "not_under_contract": ["filter::evaluate_binary_op And/Or arms, evaluate_unary_op Not, evaluate_in_list, BETWEEN tail (arrow boolean kernels: > 10 min / 5 GB each in CBMC)", "ConstantFolding::fold_expr's simplifications (x AND true etc.) and eval_string", "LIKE fast path vs general matcher", "IS [NOT] NULL"],
+    "not_under_contract": ["filter::evaluate_binary_op And/Or arms, evaluate_unary_op Not, evaluate_in_list, BETWEEN tail (arrow boolean kernels: > 10 min / 5 GB each in CBMC)", "the non-binary arms of fold_expr (structural recursion) and eval_string", "LIKE fast path vs general matcher", "IS [NOT] NULL"],
     "technique": "Kani harnesses in place on the mask kernels and the constant folder (all inputs) + Kani on the verbatim validity region of CompiledPredicate::evaluate against Kleene logic",
     "level_text": "Deductive for the units named: all operand states and all literal values. The interpreter path is outside CBMC's reach and is stated as not under contract.",
     "level_note": "Trusted: Kani/CBMC; carrier for arrow arrays in the validity region. Known finding D1 (null-strict AND/OR in the compiled path, as in the interpreter) excluded by class.",
